@@ -22,6 +22,23 @@ PLAN = {
 }
 _DEPTH = 0
 _KINDS = ("deladd", "reuse", "del", "insert", "meta")  # quick: one mutation of each of these kinds per program
+_INCOMPLETE: list = []
+
+
+def _incomplete_hugr():
+    """A HUGR whose nested DFG has no outputs yet, with a link from it: rendering raises IncompleteOp after the
+    nodes have been drawn."""
+    if not _INCOMPLETE:
+        from hugr import tys
+        from hugr.build.dfg import Dfg
+
+        wip = Dfg(tys.Bool)
+        inner = wip.add_nested(wip.inputs()[0])
+        wip.hugr.add_link(inner.parent_node.out(0), wip.output_node.inp(0))
+        _INCOMPLETE.append(wip.hugr)
+    return _INCOMPLETE[0]
+
+
 _RENDERERS: dict = {}  # one long-lived DotRenderer per configuration, reused for every HUGR of the worker
 
 
@@ -92,6 +109,12 @@ def check_render(h, cfg_name, cfg):
 
         if cfg_name not in _RENDERERS:
             _RENDERERS[cfg_name] = DotRenderer(cfg)
+        # the long-lived renderer is first handed a HUGR it must refuse (an operation without its output row):
+        # a refused rendering leaves nothing behind that shows in the next drawing
+        try:
+            _RENDERERS[cfg_name].render(_incomplete_hugr())
+        except Exception:  # noqa: BLE001
+            pass
         src_reused = _RENDERERS[cfg_name].render(h).source
         if src_reused != src:
             fails.append(("renderer-reuse", f"[{cfg_name}] a DotRenderer that already rendered other HUGRs produces a different source than a fresh one"))
